@@ -413,8 +413,15 @@ func runBatch(bin, prop string, seed uint64, n, chunk, workers int, deadline tim
 				ctx, cancel := context.WithDeadline(context.Background(), deadline.Add(5*time.Minute))
 				cmd := exec.CommandContext(ctx, bin, args...)
 				// history runs are single-threaded simulations: one P keeps runtime-managed
-				// per-P state (sync.Pool) identical between a run and its replay
-				cmd.Env = append(os.Environ(), "GOMAXPROCS=1")
+				// per-P state (sync.Pool) identical between a run and its replay. The
+				// environment is a swarm knob all the same: every fourth chunk runs with
+				// four Ps (code paths selected by runtime.GOMAXPROCS/NumCPU, helper
+				// goroutines of the library); the trace records the setting for its replay.
+				procs := "1"
+				if chunk > 0 && (j.from/chunk)%4 == 3 {
+					procs = "4"
+				}
+				cmd.Env = append(os.Environ(), "GOMAXPROCS="+procs)
 				ob, err := cmd.CombinedOutput()
 				timedOut := ctx.Err() != nil
 				cancel()
@@ -687,11 +694,26 @@ func replayFile(bin, path string) *violation {
 	return nil
 }
 
+// traceProcs returns the GOMAXPROCS setting recorded in a trace file ("1" if none).
+func traceProcs(path string) string {
+	b, err := os.ReadFile(path)
+	if err != nil {
+		return "1"
+	}
+	var t struct {
+		Procs int `json:"gomaxprocs"`
+	}
+	if json.Unmarshal(b, &t) != nil || t.Procs < 1 || t.Procs > 64 {
+		return "1"
+	}
+	return strconv.Itoa(t.Procs)
+}
+
 func replayOnce(bin, path string) *violation {
 	ctx, cancel := context.WithTimeout(context.Background(), 2*time.Minute)
 	defer cancel()
 	cmd := exec.CommandContext(ctx, bin, "replay", "-trace", path, "-known", filepath.Join(verifDir, "known_findings.txt"))
-	cmd.Env = append(os.Environ(), "GOMAXPROCS=1")
+	cmd.Env = append(os.Environ(), "GOMAXPROCS="+traceProcs(path))
 	out, _ := cmd.Output()
 	var rr runResult
 	lines := strings.Split(strings.TrimSpace(string(out)), "\n")
@@ -1066,7 +1088,7 @@ func cmdReplay(args []string) {
 		}
 		bin := build("edsim_replay", bargs...)
 		cmd := exec.Command(bin, "replay", "-trace", path, "-known", filepath.Join(verifDir, "known_findings.txt"), "-transcript")
-		cmd.Env = append(os.Environ(), "GOMAXPROCS=1")
+		cmd.Env = append(os.Environ(), "GOMAXPROCS="+traceProcs(path))
 		out, rerr := cmd.Output()
 		fmt.Print(string(out))
 		if ee, ok := rerr.(*exec.ExitError); rerr != nil && (!ok || ee.ExitCode() != 1) {
